@@ -42,10 +42,9 @@ func (g *deepcopyGen) generateType(c gengo.Context, named *types.Named) error {
 		return gengo.ErrSkip
 	}
 
+	// types dispatched by gengo are enabled already,
+	// and deps in same pkg should always be generated, copy_fields always calls DeepCopyInto of them
 	tags, _ := c.Doc(named.Obj())
-	if !gengo.IsGeneratorEnabled(g, tags) {
-		return nil
-	}
 
 	interfaces := ""
 
